@@ -268,7 +268,9 @@ func genC17(o *Out, rng *rand.Rand, tier string) {
 					raw = structuredRaw(rng, a.code, L)
 				}
 				q, ok := packetWith(a.code, raw)
-				if !ok {
+				if !ok { // a packet with this option did not survive the wire: never the reading of any raw value
+					o.Emit(map[string]any{"op": "Acc", "acc": a.name, "absent": false, "raw": B(raw), "res": map[string]any{"ok": false, "v": []int{-1}}},
+						"raw-"+a.name, append([]byte(a.name), raw...), true)
 					continue
 				}
 				o.Emit(map[string]any{"op": "Acc", "acc": a.name, "absent": false, "raw": B(raw), "res": callAcc(a, q)}, "raw-"+a.name,
